@@ -276,10 +276,14 @@ Fixpoint an_refine_n (n : nat) (x : anum) : anum :=
   | O => x
   | S k => match an_f x with None => x | Some _ => an_refine_n k (an_refine x) end
   end.
-(* the refinement shared by to_rational and to_double: (100 - n) bisections where the width b - a has exponent n *)
+(* the refinement shared by to_rational and to_double, AS REPAIRED (fixes/C07-to-double-to-rational-iterations.patch):
+   the width b - a = m / 2^n is below 2^(bits(m) - n); with size_log = bits(m) - n > -100 the interval is halved
+   100 + size_log times, so that the final width is at most 2^-100.  (The pinned code halved 100 - n times, looking at
+   the denominator exponent only: History_C07.v keeps that version and its refutation.) *)
 Definition an_approx_refine (x : anum) : anum :=
   let sz := an_dy_sub0 (an_b x) (an_a x) in
-  if (dn sz <? 100)%N then an_refine_n (N.to_nat (100 - dn sz)) x else x.
+  let size_log := z_bits (da sz) - Z.of_N (dn sz) in
+  if -100 <? size_log then an_refine_n (Z.to_nat (100 + size_log)) x else x.
 (* lp_algebraic_number_to_rational: the value itself for points and linear polynomials, else the lower end after
    refinement (the operand is refined on a copy: no state is returned) *)
 Definition an_to_rational (x : anum) : rat :=
